@@ -169,7 +169,7 @@ def run(ctx, rep):
         # the device handed to set_backing_dev comes from a recursive open whose
         # parameters had mark_backing_dev applied
         marks = [mi for mi, mt in b.calls() if mt.get('fn', '').endswith('mark_backing_dev')]
-        deps = dp.of_operand(t['args'][1], (bi, 0)) if len(t['args']) > 1 else frozenset()
+        deps = dp.of_operand(t['args'][1], (bi, 10 ** 6)) if len(t['args']) > 1 else frozenset()
         opened = any(x[0] == 'fn' and ('qcow2_setup_dev' in x[1]) for x in deps)
         ok = bool(marks) and opened and any(b.dominates(mi, bi) for mi in marks)
         rep.ob('C10.2', 'setup %s' % short(b.path), ok, 'mark_backing_dev calls %s dominate set_backing_dev' % [b.where(m) for m in marks])
@@ -238,7 +238,7 @@ def run(ctx, rep):
                 if not writes or not any(cs.get('fn', '').endswith('copy_from_slice') for _i, cs in b.calls()):
                     continue
                 ncow += 1
-                dd = dp.of_operand(t['args'][0], (bi, 0))
+                dd = dp.of_operand(t['args'][0], (bi, 10 ** 6))
                 ok = any(x[0] == 'fn' and x[1].endswith('cluster_size') for x in dd)
                 rep.ob('C10.4', 'COW buffer in %s' % short(b.path), ok, 'length derives from cluster_size()')
                 if not ok:
